@@ -137,6 +137,22 @@ class Rat:
       return repr(self.n)
     return '(%r)/(%r)' % (self.n, self.d)
 
+  def subst(self, mapping):
+    """Replace atoms by Rats (simultaneous substitution)."""
+    def ev(poly):
+      out = Rat(Poly.const(0))
+      for mon, c in poly.t.items():
+        term = Rat(Poly.const(c))
+        for a, p in mon:
+          base = mapping.get(a)
+          if base is None:
+            base = Rat(Poly.atom(a))
+          for _ in range(p):
+            term = term * base
+        out = out + term
+      return out
+    return ev(self.n) / ev(self.d)
+
 
 class NFError(Exception):
   pass
